@@ -60,7 +60,7 @@ class C13(Prop):
     rule = ("exhaustive: all profiles of <= 3 distinct orders over 3 alternatives and <= 2 over 4; random m<=6, n<=5 "
             "against brute force over spanning trees; planted tree-single-peaked profiles up to m=25 and one-swap "
             "perturbations; non-trivial = >= 2 orders and >= 3 alternatives")
-    budget = {"quick": 250, "thorough": 20000}
+    budget = {"quick": 1000, "thorough": 20000}
     anchors = [("preflibtools.properties.subdomains.ordinal.singlepeaked.single_peaked_tree", n) for n in
                ("is_single_peaked_on_tree", "get_B", "get_bottom_alts", "restrict_preferences")]
 
@@ -79,10 +79,14 @@ class C13(Prop):
             if rng.random() < (1.0 if deep or self.tier == "thorough" else 0.3):
                 yield {"kind": "profile", "alts": [1, 2, 3, 4], "orders": [list(o) for o in sub], "planted": None}
         for i in range(n):
+            for c in self._random_case(rng):
+                yield gen.strict_case_extras(rng, c)
+
+    def _random_case(self, rng):
             r = rng.random()
             if r < 0.5:
                 m = rng.randint(2, 6)
-                alts = gen.alt_ids(rng, m, zero_ok=True)
+                alts = gen.alt_ids(rng, m, zero_ok=True, style="concat" if rng.random() < 0.15 else None)
                 orders = [list(o) for o in gen.strict_orders(rng, alts, rng.randint(1, 5))]
                 c = {"kind": "profile", "alts": alts, "orders": orders, "planted": None}
                 if rng.random() < 0.5:
@@ -107,8 +111,8 @@ class C13(Prop):
 
     def run_impl(self, case):
         from preflibtools.properties.subdomains.ordinal.singlepeaked.single_peaked_tree import is_single_peaked_on_tree
-        prof = [(tuple((a,) for a in o), 1) for o in case["orders"]]
-        inst = gen.make_ordinal(prof, alts=case.get("store", case["alts"]), data_type="soc")
+        inst = gen.strict_case_instance(case, is_single_peaked_on_tree, alts=case.get("store", case["alts"]))
+        self.count("built:" + ("grown" if case.get("grow") else "direct") + ("+mult" if case.get("mults") else ""))
         r = call(is_single_peaked_on_tree, inst)
         if r[0] == "ok":
             v, t = r[1]
@@ -155,14 +159,22 @@ class C13(Prop):
 
     def shrink_candidates(self, case):
         os_ = case["orders"]
+        yield from gen.strict_case_shrinks(case)
+        ms = case.get("mults")
         for i in range(len(os_)):
             if len(os_) > 1:
-                yield dict(case, orders=os_[:i] + os_[i + 1:], planted=None)
+                c2 = dict(case, orders=os_[:i] + os_[i + 1:], planted=None)
+                if ms:
+                    c2["mults"] = ms[:i] + ms[i + 1:]
+                yield c2
         if len(case["alts"]) > 2:
             for x in case["alts"]:
                 o2 = [[a for a in o if a != x] for o in os_]
                 if len({tuple(o) for o in o2}) == len(o2):
-                    yield dict(case, alts=[a for a in case["alts"] if a != x], orders=o2, planted=None)
+                    c2 = dict(case, alts=[a for a in case["alts"] if a != x], orders=o2, planted=None)
+                    if "store" in case:
+                        c2["store"] = [a for a in case["store"] if a != x]
+                    yield c2
 
 
 PROP = C13
